@@ -751,6 +751,76 @@ func lokiScript(r *rand.Rand) []ResultSet {
 	return []ResultSet{rs}
 }
 
+// sweep: every read endpoint, with typical parameters and with none, against a database whose statement fails,
+// that ends before the first row, and that answers nothing -- deterministic, part of every run
+func sweepCases(id0 int) []*Case {
+	type ep struct {
+		method, path string
+		params       []KV
+		body         string
+	}
+	t0, t1 := fmt.Sprintf("%d000000000", baseSec), fmt.Sprintf("%d000000000", baseSec+300)
+	s0, s1 := fmt.Sprint(baseSec), fmt.Sprint(baseSec+300)
+	eps := []ep{
+		{"GET", "/loki/api/v1/query_range", []KV{{"query", `{a="b"}`}, {"start", t0}, {"end", t1}}, ""},
+		{"GET", "/loki/api/v1/query_range", []KV{{"query", `rate({a="b"} | json [1m])`}, {"start", t0}, {"end", t1}, {"step", "15"}}, ""},
+		{"GET", "/loki/api/v1/query", []KV{{"query", `rate({a="b"}[1m])`}, {"time", t1}}, ""},
+		{"GET", "/loki/api/v1/labels", []KV{{"start", t0}, {"end", t1}}, ""},
+		{"GET", "/loki/api/v1/label", nil, ""},
+		{"GET", "/loki/api/v1/label/a/values", []KV{{"start", t0}, {"end", t1}}, ""},
+		{"GET", "/loki/api/v1/series", []KV{{"match[]", `{a="b"}`}, {"start", t0}, {"end", t1}}, ""},
+		{"POST", "/loki/api/v1/series", []KV{{"match[]", `{a="b"}`}}, ""},
+		{"GET", "/api/v1/query_range", []KV{{"query", "up"}, {"start", s0}, {"end", s1}, {"step", "15"}}, ""},
+		{"GET", "/api/v1/query", []KV{{"query", `rate(up[1m])`}, {"time", s1}}, ""},
+		{"GET", "/api/v1/labels", []KV{{"start", s0}, {"end", s1}}, ""},
+		{"GET", "/api/v1/label/job/values", []KV{{"match[]", "up"}}, ""},
+		{"GET", "/api/v1/series", []KV{{"match[]", "up"}, {"start", s0}, {"end", s1}}, ""},
+		{"GET", "/api/v1/metadata", nil, ""},
+		{"GET", "/api/traces/0123456789abcdef0123456789abcdef", nil, ""},
+		{"GET", "/api/traces/0123456789abcdef0123456789abcdef/json", []KV{{"start", s0}, {"end", s1}}, ""},
+		{"GET", "/api/search/tags", nil, ""},
+		{"GET", "/api/search/tag/a/values", nil, ""},
+		{"GET", "/api/v2/search/tags", nil, ""},
+		{"GET", "/api/v2/search/tags", []KV{{"start", s0}, {"end", s1}, {"q", `{.a="b"}`}}, ""},
+		{"GET", "/api/v2/search/tag/a/values", nil, ""},
+		{"GET", "/api/v2/search/tag/a/values", []KV{{"start", s0}, {"end", s1}, {"q", `{.a="b"}`}}, ""},
+		{"GET", "/api/search", []KV{{"tags", "a=b"}, {"start", s0}, {"end", s1}}, ""},
+		{"GET", "/api/search", []KV{{"q", `{.a="b"}`}, {"start", s0}, {"end", s1}}, ""},
+		{"GET", "/api/search", nil, ""},
+		{"POST", "/querier.v1.QuerierService/ProfileTypes", nil, `{"start":1700000000000,"end":1700000300000}`},
+		{"POST", "/querier.v1.QuerierService/LabelNames", nil, `{"start":1700000000000,"end":1700000300000}`},
+		{"POST", "/querier.v1.QuerierService/LabelValues", nil, `{"name":"a","start":1700000000000,"end":1700000300000}`},
+		{"POST", "/querier.v1.QuerierService/SelectMergeStacktraces", nil, `{"profileTypeID":"process_cpu:cpu:nanoseconds:cpu:nanoseconds","labelSelector":"{a=\"b\"}","start":1700000000000,"end":1700000300000}`},
+		{"POST", "/querier.v1.QuerierService/SelectSeries", nil, `{"profileTypeID":"process_cpu:cpu:nanoseconds:cpu:nanoseconds","labelSelector":"{a=\"b\"}","start":1700000000000,"end":1700000300000,"step":15}`},
+		{"POST", "/querier.v1.QuerierService/SelectMergeProfile", nil, `{"profileTypeID":"process_cpu:cpu:nanoseconds:cpu:nanoseconds","labelSelector":"{a=\"b\"}","start":1700000000000,"end":1700000300000}`},
+		{"POST", "/querier.v1.QuerierService/Series", nil, `{"matchers":["{a=\"b\"}"],"start":1700000000000,"end":1700000300000}`},
+		{"POST", "/querier.v1.QuerierService/GetProfileStats", nil, `{}`},
+		{"POST", "/querier.v1.QuerierService/AnalyzeQuery", nil, `{"query":"{a=\"b\"}","start":1700000000000,"end":1700000300000}`},
+		{"GET", "/pyroscope/render-diff", []KV{{"leftQuery", `process_cpu:cpu:nanoseconds:cpu:nanoseconds{a="b"}`}, {"rightQuery", `process_cpu:cpu:nanoseconds:cpu:nanoseconds{a="c"}`}, {"leftFrom", s0}, {"leftUntil", s1}, {"rightFrom", s0}, {"rightUntil", s1}}, ""},
+	}
+	var res []*Case
+	id := id0
+	for _, e := range eps {
+		for k, db := range []string{"statement-fails", "ends-at-once", "no-rows"} {
+			c := &Case{ID: id, Class: "test/sweep/" + db, Method: e.method, Path: e.path, Params: e.params, Body: e.body}
+			if e.body != "" {
+				c.ContentType = "application/json"
+			}
+			rs := ResultSet{Match: "", Cols: 1, FailAfter: -1}
+			switch k {
+			case 0:
+				rs.QueryErr = true
+			case 1:
+				rs.FailAfter = 0
+			}
+			c.Script = []ResultSet{rs}
+			res = append(res, c)
+			id++
+		}
+	}
+	return res
+}
+
 // generate: n modelled cases (Loki range/instant, Tempo trace) followed by 2.5 n test-only cases
 func generate(seed int64, n int) []*Case {
 	r := rand.New(rand.NewSource(seed))
@@ -765,5 +835,6 @@ func generate(seed int64, n int) []*Case {
 	for i := 0; i < n*5/2; i++ {
 		res = append(res, testCase(r, n+i))
 	}
+	res = append(res, sweepCases(n+n*5/2)...)
 	return res
 }
